@@ -72,6 +72,9 @@ type rec struct {
 
 var lateHistories int32
 
+// one shared (never modified) block for the big writes: allocating a MiB per operation makes the harness itself hiccup
+var bigBuf = make([]byte, 1<<20)
+
 // hiccups: moments at which this process was not scheduled for more than 8 ms (measured by a goroutine that sleeps 1 ms
 // at a time).  A history during whose life such a pause happened is not judged: the timing of its events says nothing.
 var (
@@ -83,7 +86,7 @@ func heartbeat() {
 	for {
 		t0 := time.Now()
 		time.Sleep(time.Millisecond)
-		if d := time.Since(t0); d > 9*time.Millisecond {
+		if d := time.Since(t0); d > lag/2 {
 			hicMu.Lock()
 			hiccups = append(hiccups, t0)
 			hicMu.Unlock()
@@ -265,7 +268,7 @@ func runCoreBatch(mode string, list []hist, unit time.Duration, slack time.Durat
 							}
 						case "bigwrite":
 							// the peer does not read: most of this stays queued in user space
-							c.Write(make([]byte, 1<<20))
+							c.Write(bigBuf)
 							backlog = true
 						case "close":
 							r.add(hlib.Ev{"ev": "closeop"})
@@ -409,6 +412,8 @@ func main() {
 	slackMs := flag.Int("slack", 500, "")
 	ka := flag.Bool("keepalive", true, "")
 	flag.Parse()
+	// the allowance for the asynchronous delivery of the close notification scales with the tick: a third of it
+	lag = time.Duration(*unitMs) * time.Millisecond / 3
 	logging.SetLevel(logging.LevelNone)
 	var err error
 	tr, err = hlib.NewTrace(*out)
